@@ -22,7 +22,7 @@ What to produce: a change to the interpreter's non-test Go sources (or native/*.
  1. it compiles, and the full existing test suite passes exactly as before (apart from the known flaky test);
  2. the property above is violated for some inputs;
  3. the violation needs something SPECIFIC to manifest - e.g. an unusual input or boundary value, a particular multi-step sequence of operations, a particular nesting/combination of language constructs, two cooperating code sites that each look fine alone - NOT something that ordinary everyday use of the language would expose at once (a bug that breaks `1 + 1` or every function call is useless). Think of a realistic mistake a maintainer could make in a refactoring or "optimisation".
- 4. a demonstration: a small Go test file (placed in the worktree, e.g. evaluator/seed_demo_test.go or a test in an appropriate package) or a Pangaea program + expected output, that FAILS with your change and PASSES on the unchanged code. Verify both directions yourself (use `git stash` to check the unchanged code).
+ 4. a demonstration: a small Go test file (placed in the worktree, e.g. evaluator/seed_demo_test.go or a test in an appropriate package) or a Pangaea program + expected output, that FAILS with your change and PASSES on the unchanged code. Verify both directions yourself. IMPORTANT: never use `git stash` (the stash is shared by all worktrees of this repository and other jobs run concurrently): to check the unchanged code save your change with `git diff > /path/change.diff`, undo it with `git checkout -- .`, and re-apply it with `git apply /path/change.diff`.
 {extra}
 Please produce TWO different such changes if you can (different code sites / different mechanisms), each independent of the other (each applied alone to the unchanged worktree).
 
